@@ -192,6 +192,11 @@ def correspondence(res, st, tier, work, extra_gen=()):
                             "impl": (a[kk] if a and kk is not None and kk < len(a) else fi[k] if k < len(fi) else "<eof>")[:1500],
                             "model": (b[kk] if b and kk is not None and kk < len(b) else fm[k] if k < len(fm) else "<eof>")[:1500],
                             "case_lines": small}
+        # the shrunk history is another input the oracles look at (it may show the property failing where the original
+        # history's differing step was none of an oracle's business)
+        sp = os.path.join(work, "shrunk.impl")
+        if small and os.path.exists(sp):
+            info["traces"] = list(info.get("traces", [])) + [sp]
     return info
 
 
